@@ -62,7 +62,10 @@ def _stable_name(value: Any) -> str:
     module = getattr(value, '__module__', None)
     name = getattr(value, '__qualname__', None) or \
         getattr(value, '__name__', None)
-    if module and name:
+    # Functions created inside other functions share one qualified
+    # name; they have no name that tells them apart.
+    if module and name and '<' not in name and \
+            getattr(value, '__closure__', None) is None:
         return "{}.{}".format(module, name)
     return repr(value)
 
@@ -390,6 +393,7 @@ class PageTemplate(BaseTemplate):
             'implicit_i18n_translate',
             'strict',
             'mode',
+            'content_type',
             'default_expression',
             'enable_data_attributes',
             'enable_comment_interpolation',
